@@ -463,7 +463,7 @@ Lemma sim_declare p ss g k n : R p ss -> SInv ss ->
   R (fst (declare p g k n)) (fst (s_declare ss g k n)) /\ SInv (fst (s_declare ss g k n)).
 Proof.
   intros HR HS. destruct (sim_select p ss g HR HS) as (E1 & R1 & S1 & I1).
-  unfold declare, s_declare. destruct (select p g) as [p1 gn]; simpl in E1, R1. subst gn.
+  unfold declare, s_declare, s_gdeclare. destruct (select p g) as [p1 gn]; simpl in E1, R1. subst gn.
   pose proof (sim_group_declare p1 (s_select ss g) (gkey g) k n R1 S1 I1) as H.
   destruct (List.find (called n) (s_decls (s_select ss g))) as [x|].
   - destruct (objid_eq_dec (fst x) (gkey g, k, n)); rewrite H; simpl; auto.
@@ -677,18 +677,42 @@ Proof.
   apply T. auto.
 Qed.
 (* ---------- simulation of one operation and of a whole run *)
+Lemma sim_set_on p ss i x : R p ss -> SInv ss ->
+  snd (set_on p i x) = snd (s_set_on ss i x) /\ R (fst (set_on p i x)) (fst (s_set_on ss i x)) /\ SInv (fst (s_set_on ss i x)).
+Proof.
+  intros HR HS. unfold set_on, s_set_on. rewrite (r_lookup _ _ HR i).
+  destruct (s_lookup ss i) as [ob|] eqn:L; simpl; [|auto].
+  rewrite setter_eq. destruct (s_setter x ob) as [ob'|]; simpl; [|auto].
+  rewrite <- (r_lookup _ _ HR) in L. destruct (sim_store p ss i ob ob' HR HS L). auto.
+Qed.
+Lemma sim_gdeclare p ss gn k n : R p ss -> SInv ss -> In gn (s_groups ss) ->
+  snd (group_declare p gn k n) = snd (s_gdeclare ss gn k n) /\
+  R (fst (group_declare p gn k n)) (fst (s_gdeclare ss gn k n)) /\ SInv (fst (s_gdeclare ss gn k n)).
+Proof.
+  intros HR HS Hg. pose proof (sim_group_declare p ss gn k n HR HS Hg) as H. unfold s_gdeclare.
+  destruct (List.find (called n) (s_decls ss)) as [x|].
+  - destruct (objid_eq_dec (fst x) (gn, k, n)); rewrite H; simpl; auto.
+  - destruct H as (p' & -> & R2 & S2). simpl. auto.
+Qed.
 Lemma sim_step p ss o : R p ss -> SInv ss ->
   snd (step p o) = snd (s_step ss o) /\ R (fst (step p o)) (fst (s_step ss o)) /\ SInv (fst (s_step ss o)).
 Proof.
-  intros HR HS. destruct o as [g|g k n|g k n x| |]; simpl.
+  intros HR HS. destruct o as [g|g k n|g k n x|g k n xo|i x| |]; simpl.
   - destruct (sim_group p ss g HR HS). auto.
   - destruct (sim_declare p ss g k n HR HS) as (E & R1 & S1).
     destruct (declare p g k n) as [p1 r], (s_declare ss g k n) as [s1 r']; simpl in *. subst r'. destruct r; simpl; auto.
   - destruct (sim_declare p ss g k n HR HS) as (E & R1 & S1).
     destruct (declare p g k n) as [p1 r], (s_declare ss g k n) as [s1 r']; simpl in *. subst r'. destruct r as [i|]; simpl; [|auto].
-    rewrite (r_lookup _ _ R1 i). destruct (s_lookup s1 i) as [ob|] eqn:L; simpl; [|auto].
-    rewrite setter_eq. destruct (s_setter x ob) as [ob'|]; simpl; [|auto].
-    rewrite <- (r_lookup _ _ R1) in L. destruct (sim_store p1 s1 i ob ob' R1 S1 L). auto.
+    now apply sim_set_on.
+  - destruct (in_dec str_eq_dec g (s_groups ss)) as [Hin|Hnin].
+    + pose proof Hin as Hin'. rewrite <- (r_groups _ _ HR) in Hin'. apply gfind_some_iff in Hin' as [g0 ->].
+      destruct (sim_gdeclare p ss g k n HR HS Hin) as (E & R1 & S1).
+      destruct (group_declare p g k n) as [p1 r], (s_gdeclare ss g k n) as [s1 r']; simpl in *. subst r'.
+      destruct r as [i|]; simpl; [|auto]. destruct xo as [x|]; simpl; [now apply sim_set_on | auto].
+    + assert (E : gfind p g = None) by (apply gfind_none_iff; now rewrite (r_groups _ _ HR)).
+      rewrite E. simpl. auto.
+  - rewrite (r_lookup _ _ HR i). destruct (s_lookup ss i) eqn:L; simpl; [|auto].
+    pose proof (sim_set_on p ss i x HR HS) as H. exact H.
   - auto.
   - rewrite (parse_eq _ _ HR HS). auto.
 Qed.
@@ -819,7 +843,7 @@ Proof.
   assert (D : declare p g k n = (p, Some i)) by (apply declare_same; unfold declared; fold i; congruence).
   assert (St : step p (OSet g k n (SShort s)) =
                if short_ok (o_short ob) s then (store p i ob', ROk i) else (p, RDevSet i)).
-  { simpl. rewrite D, L. change (obj_short_name ob s) with (apply_setter (SShort s) ob). rewrite setter_eq. simpl.
+  { simpl. rewrite D. unfold set_on. rewrite L. rewrite setter_eq. simpl.
     now destruct (short_ok (o_short ob) s). }
   split.
   - intros H. apply short_ok_iff in H. rewrite H in St. split; [exact St|]. split.
@@ -923,4 +947,21 @@ Proof.
     destruct (run_from p1 ops); simpl in *. now rewrite IH. }
   specialize (Len a new_parser). destruct (run_from new_parser a) as [p1 o1]. destruct (run_from p1 b) as [p2 o2].
   exists p2, o1, o2. auto.
+Qed.
+
+(* ---------- held handles are just names *)
+Theorem held_object_is_name p gn k n x :
+  declared p (gn, k, n) -> step p (OHSet (gn, k, n) x) = step p (OSet (GNamed gn) k n x).
+Proof.
+  intros D. simpl. rewrite (declare_same p (GNamed gn) k n D). simpl.
+  unfold declared in D. destruct (lookup p (gn, k, n)); [reflexivity | congruence].
+Qed.
+Theorem held_group_is_name p g k n :
+  gfind p g <> None ->
+  step p (OHDecl g k n None) = step p (ODecl (GNamed g) k n) /\
+  forall x, step p (OHDecl g k n (Some x)) = step p (OSet (GNamed g) k n x).
+Proof.
+  intros H. simpl. unfold declare. simpl. unfold parser_group.
+  destruct (gfind p g) as [g0|]; [|congruence].
+  destruct (group_declare p g k n) as [p1 [i|]]; split; intros; reflexivity.
 Qed.
